@@ -229,6 +229,10 @@ pub mod sasl_profile;
 pub mod session;
 pub mod transport;
 
+#[cfg(feature = "verif-hooks")]
+#[doc(hidden)]
+pub mod verif_facade;
+
 cfg_acceptor! {
     pub mod acceptor;
 }
